@@ -15,10 +15,14 @@
     hist <op> <op> ...                    -> ok <res> ... fin <Enc58str> <Checksum|nil>     (one object, from new(BtcAddr))
          ops: S:<hrp>:<ver>:<prog> | N (SegwitProg=nil) | E:<str> | C:<bytes>|C:nil | V:<n> | H:<bytes> | s (String()) | o (OutScript())
          res: s=<str> | o=<script|panic>
+    b58sched <i,i,...|-> <bytes> <bytes> ... -> ok <str> <str> ...   (Encodeb58 of every argument when the callers' digit-loop
+                                             steps are interleaved as given (then each runs to completion), in the variant the
+                                             source has: Base58Sched.results with Gen.C15Shared.encodeRemShared)
 -/
 import GocoinV.Model.Addr
 import GocoinV.Model.AddrWif
 import GocoinV.Model.AddrObj
+import GocoinV.Model.Base58Sched
 import GocoinV.Base.Ripemd160
 import GocoinV.Base.Proto
 open GocoinV
@@ -72,6 +76,9 @@ def parseOps : List String → Option (List Addr.Op)
 def resStr : Addr.Res → String
   | .str s => s!"s={Hex.encode s}"
   | .script s => s!"o={optHex s}"
+
+def parseSched (t : String) : Option (List Nat) :=
+  if t == "-" then some [] else (t.splitOn ",").mapM (·.toNat?)
 
 def step (_ : Unit) (toks : List String) : Unit × String :=
   let bad := ((), "bad-op")
@@ -148,6 +155,12 @@ def step (_ : Unit) (toks : List String) : Unit × String :=
       let fin := Addr.Obj.exec H ops Addr.Obj.zero
       let ck := match fin.cksum with | some c => Hex.encode c | none => "nil"
       ((), " ".intercalate ("ok" :: rs.map resStr ++ ["fin", Hex.encode fin.enc, ck]))
+  | "b58sched" :: sc :: args =>
+    match parseSched sc, args.mapM Hex.decode with
+    | some sched, some as =>
+      if as.isEmpty then bad
+      else ((), " ".intercalate ("ok" :: (Base58Sched.results as sched).map Hex.encode))
+    | _, _ => bad
   | ["wifenc", v, k, c] =>
     match v.toNat?, Hex.decode k with
     | some v, some k =>
